@@ -273,10 +273,20 @@ func runC01(c *Ctx, r *Report, tier string) {
 			r.Check(c.term(a.(*ssa.Call).Call.Args[0]) == "Parser.Command(P0)", "REARM", c.fname(pa), "arming starts at the root command", c.ipos(a), "p.eachOption", "arming starts at "+c.term(a.(*ssa.Call).Call.Args[0]))
 		}
 	}
+	nTree := 0
 	for _, in := range c.instrs(eo, c.isCallTo("(*Command).eachCommand")) {
 		a := in.(*ssa.Call).Call.Args
+		nTree++
 		r.Check(c.term(a[2]) == "true" && c.term(a[0]) == "P0", "REARM", c.fname(eo), "eachOption visits the whole command tree", c.ipos(in), "eachCommand(f, recurse = true)", "eachOption calls eachCommand with recurse = "+c.term(a[2]))
 	}
+	for _, in := range c.instrs(eo, c.isCallTo("(*Command).eachOption")) {
+		// the walk written as a direct recursion over the subcommands
+		a := in.(*ssa.Call).Call.Args
+		nTree++
+		_, inLoop := c.Requires(eo, isInstr(in), func(l Lit) bool { return strings.Contains(l.Term, "len(Command.commands(P0))") }, nil)
+		r.Check(strings.HasPrefix(c.term(a[0]), "idx(Command.commands(P0), ") && c.term(a[1]) == "P1" && inLoop, "REARM", c.fname(eo), "eachOption visits the whole command tree", c.ipos(in), "sub.eachOption(f) for each subcommand", "eachOption recurses into "+trunc(c.term(a[0]), 60))
+	}
+	r.Check(nTree > 0, "REARM", c.fname(eo), "eachOption reaches the subcommands", c.pos(eo.Pos()), "eachCommand(…, true) or a recursion over c.commands", "eachOption visits the receiver's own options only")
 	okRec := false
 	for _, in := range c.instrs(ecm, c.isCallTo("(*Command).eachCommand")) {
 		a := in.(*ssa.Call).Call.Args
@@ -289,7 +299,7 @@ func runC01(c *Ctx, r *Report, tier string) {
 	// eachOption's inner closure visits every option of every nested group
 	okIn := false
 	for _, f := range c.Funcs {
-		if strings.HasPrefix(c.fname(f), "(*Command).eachOption$") {
+		if strings.HasPrefix(c.fname(f), "(*Command).eachOption$") || f == eo {
 			for _, in := range c.instrs(f, c.isCallTo("(*Group).eachGroup")) {
 				_ = in
 				okIn = true
